@@ -691,7 +691,7 @@ class sptensor:
         >>> S.find()
         (array([[0, 1]]), array([[1.]]))
         """
-        return self.subs, self.vals
+        return self.subs.copy(), self.vals.copy()
 
     def to_tensor(self) -> ttb.tensor:
         """Convert to dense tensor.
@@ -1764,7 +1764,7 @@ class sptensor:
         if self.subs.size == 0:
             return sparse.coo_matrix(self.shape)
         return sparse.coo_matrix(
-            (self.vals.transpose()[0], self.subs.transpose()), self.shape
+            (self.vals.transpose()[0].copy(), self.subs.transpose()), self.shape
         )
 
     def squeeze(self) -> Union[sptensor, float]:
